@@ -306,7 +306,22 @@ class Prelude:
         self.symbols = symbols
 
 
-def prestate2(b, pre, text, name="t"):
+def fn_w0(data):
+    return data['w0'].value
+
+
+def fn_seven(data):
+    return 7.0
+
+
+def fn_three(data):
+    return 3
+
+
+FUNCTIONS = {"fn_w0": fn_w0, "fn_seven": fn_seven, "fn_three": fn_three}
+
+
+def prestate2(b, pre, text, name="t", functions=()):
     d0 = b.new(DIPC, name="prelude")
     b.call(b.getattr(d0, "add_string"), pre.text)
     env = b.call(b.getattr(d0, "parse"))
@@ -318,6 +333,8 @@ def prestate2(b, pre, text, name="t"):
             S[sym] = getattr(b, kind)(sym)
             b.setattr(b.getattr(b.call(b.getattr(nodes, "__getitem__"), i), "value"), "value", S[sym])
     d = b.new(DIPC, env, name=name)
+    for fname in functions:
+        b.call(b.getattr(d, "add_function"), fname, b.specfn(spec(FUNCTIONS[fname])))
     b.call(b.getattr(d, "add_string"), text)
     return d, env, S
 
@@ -425,6 +442,13 @@ C16_TEXTS = [
     ("declared-in-a-group-without-value", "g\n  q int", False, []),
     ("constraint-violated-inside-unselected-clause-does-not-matter", '@case ("{?f0}")\n  n = {?v0}\n@end', ("or", ("not", f0), ("in", v0, [1, 2, 3])), []),
     ("unconstrained-modification", "w1 = {?w0}", True, [("w1", w0)]),
+    ("text-condition-not-equal", 'nm str = abc\n  !condition ("{?} != x")', True, [("nm", "abc")]),
+    ("text-condition-not-equal-violated", 'nm str = abc\n  !condition ("{?} != abc")', False, []),
+    ("text-condition-and-format", "nm str = abc\n  !condition (\"{?} != x\")\n  !format '[a-z]+'", True, [("nm", "abc")]),
+    ("text-condition-holds-format-fails", "nm str = Ab-1\n  !condition (\"{?} != x\")\n  !format '^[a-z]+$'", False, []),
+    ("text-format-then-condition-format-fails", "nm str = Ab-1\n  !format '^[a-z]+$'\n  !condition (\"{?} != x\")", False, []),
+    ("text-options-condition-format", "nm str = C-3\n  = C-3\n  = ab\n  !condition (\"{?} != x\")\n  !format '^[a-z]+$'", False, []),
+    ("boolean-condition-not-equal", 'fl bool = {?f0}\n  !condition ("{?} != false")', f0, [("fl", f0)]),
 ]
 
 
@@ -460,6 +484,7 @@ C18_TEXTS = [
     ("division-then-product", 'x float = ("{?a} / {?k} * 2") m', False, [("x", ("*", ("/", wa, wk), 2))], ("ne", wk, 0)),
     ("signs-of-numbers", 'x float = ("-2 m * -3 + {?a} * -1") cm', False, [("x", ("-", 600, ("*", wa, 100)))], None),
     ("zero-result", 'x float = ("{?a} - {?a}") cm\ny int = ("{?i} * 0")', False, [("x", 0), ("y", 0)], None),
+    ("untyped-modification-by-expression-in-another-unit", 'x float = 1 m\nx = ("50 cm + {?b}") cm\ny float = 2 km\ny float = ("{?a} * 3") m', False, [("x", ("/", ("+", 50, wb), 100)), ("y", ("/", ("*", wa, 3), 1000))], None),
     ("untyped-modification-by-expression", 'x float = 1 cm\nx = ("{?a} + {?b}")\nz bool = true\nz = ("{?f} && {?g}")', False, [("x", ("+", ("*", wa, 100), wb)), ("z", ("and", bf, bg))], None),
     ("different-dimension-refused", 'x float = ("{?a} + {?k}") m', True, [], None),
     ("different-dimension-refused-2", 'x float = ("{?a} * {?b} - {?a}") m2', True, [], None),
@@ -516,6 +541,9 @@ C17_TEXTS = [
     ("import-at-root-level", "{?grp.q.*}", False, [("r", vr)], [], ["r"]),
     ("named-import", "cp {?grp.*}\ncq {?a}", False, [("cp.p", wp), ("cp.q.r", vr), ("cp.flag", bflag), ("cq.a", wa)], [("cp.p", "s"), ("cq.a", "m")], ["cp.p", "cp.q.r", "cp.flag", "cq.a"]),
     ("import-keeps-constraints", "box\n  {?opt}\nbox.opt = {?i}", ("not", ("in", vi, [1, 2, 3])), [("box.opt", vi)], [], ["box.opt"]),
+    ("comparison-in-a-condition-does-not-alter-the-compared-nodes", '@case ("{?a} > {?b}")\n  x int = 1\n@end\ncopy float = {?a}\nthin float = {?a} mm\nbox\n  {?a}', False,
+     [("copy", wa), ("thin", wa), ("a", wa), ("b", wb), ("box.a", wa)], [("copy", "m"), ("thin", "mm"), ("a", "m"), ("b", "cm"), ("box.a", "m")], None),
+    ("option-added-below-an-imported-copy-stays-there", "box\n  {?opt}\n    = 7\nopt = {?i}", ("not", ("in", vi, [1, 2, 3])), [("opt", vi)], [], None),
     ("injection-selecting-no-node", "x float = {?nope}", True, [], [], None),
     ("injection-selecting-several-nodes", "x float = {?grp.*}", True, [], [], None),
     ("sliced-array-injection-then-import", "part float[:] = {?sizes}[1:3]\nbox\n  {?part}", False, [], [("part", "cm"), ("box.part", "cm")], ["part", "box.part"]),
@@ -623,6 +651,11 @@ C14_TEXTS = [
     ("declared-without-value-refused", "d float cm", True, [], []),
     ("declared-then-assigned", "d float cm\nd = {?w0} mm", False, [("d", ("/", w0, 10))], [("d", "cm")]),
     ("new-node-assigned-twice", "n float = {?w0} km\nn = {?w1} m", False, [("n", ("/", w1, 1000))], [("n", "km")]),
+    ("function-after-expression-definition", 'n float = ("1 m + 1 m") m\nn = (fn_seven)', False, [("n", 7)], [("n", "m")]),
+    ("expression-after-function-definition", 'n float = (fn_w0) m\nn = ("{?w1} * 2 m")', False, [("n", ("*", w1, 2))], [("n", "m")]),
+    ("function-modification", "len = (fn_w0)\ncnt = (fn_three)", False, [("len", w0), ("cnt", 3)], [("len", "cm")]),
+    ("function-modification-stating-a-unit", "len = (fn_w0) m", False, [("len", ("*", w0, 100))], [("len", "cm")]),
+    ("expression-then-function-then-literal", 'len = ("{?w0} * 2 mm") mm\nlen = (fn_seven)\nlen = {?w1} m', False, [("len", ("*", w1, 100))], [("len", "cm")]),
     ("modifying-an-undefined-node-refused", "nope = 3", True, [], []),
 ]
 KEYWORDS14 = [("len", "float"), ("cnt", "int"), ("flag", "bool"), ("txt", "str"), ("mass", "float"), ("fixed", "float"), ("big", "int")]
@@ -640,7 +673,7 @@ def _(c):
     c.chunk = 1
     for name, text, refused, vals, units in C14_TEXTS:
         def pre(b, text=text, refused=refused, vals=vals, units=units):
-            d, env, S = prestate2(b, PRE14, text)
+            d, env, S = prestate2(b, PRE14, text, functions=[f for f in FUNCTIONS if f in text])
             return dict(args=[d], env=dict(S=S, refused=refused, vals=vals, units=units, text=text))
         c.scenario(name, pre)
     c.raises("ev(refused, S)", label="refused-iff-type-dimension-constant-or-missing-value")
@@ -679,4 +712,95 @@ def _(c):
     c.scenario("all-widths-and-signs", pre)
     c.ensures("all([decl_line(result, nm).startswith(nm + ' ' + t + ' = ') for nm, t in want])", "declared-type-width-and-sign-of-the-node")
     c.ensures("len(result.split('\\n')) == len(want)", "one-line-per-parameter")
+    c.no_raise()
+
+
+# ---- C13: whole texts whose data are the literals themselves (concrete; executed by the same interpreter, decided by ground evaluation) ----
+C13_TEXTS = [
+    ("comments-blank-lines-mixed-widths", '''
+# leading comment
+box            # group
+    # comment inside a group
+    width float = 1.5e2 cm
+
+    size
+      x int = 3
+        # deeper comment
+      y uint16 = 4 m
+  # dedented comment
+    label str = "a b"
+flags
+ on bool = true
+ names str[2] = ["p","q"]
+''', [("box.width", "float", 150.0, "cm"), ("box.size.x", "int", 3, None), ("box.size.y", "int", 4, "m"), ("box.label", "str", "a b", None), ("flags.on", "bool", True, None), ("flags.names", "str", ["p", "q"], None)]),
+    ("block-text-with-lines-that-look-like-comments", '''
+job
+  script str = """
+#!/bin/bash
+  # set up
+run --fast
+
+# done
+"""
+  n int = 2
+''', [("job.script", "str", "#!/bin/bash\n  # set up\nrun --fast\n\n# done", None), ("job.n", "int", 2, None)]),
+    ("block-array-and-hash-inside-quotes", '''
+m int[2,2] = """
+[[1,2],
+ [3,4]]
+""" km/s   # unit after the block
+t str = "a # b"      # comment
+u str = 'x'
+''', [("m", "int", [[1, 2], [3, 4]], "km/s"), ("t", "str", "a # b", None), ("u", "str", "x", None)]),
+    ("dotted-names-and-dedent-by-several-levels", '''
+a
+   b.c
+      d int = 1
+         e int = 2
+   f int = 3
+g.h int = 4
+''', [("a.b.c.d", "int", 1, None), ("a.b.c.d.e", "int", 2, None), ("a.f", "int", 3, None), ("g.h", "int", 4, None)]),
+    ("numbers-in-any-notation-none-and-signs", '''
+i1 int = -42
+i2 int64 = 9007199254740993
+f1 float = 1E+2
+f2 float = .5 K
+f3 float32 = -2.5e-3
+f4 float = 10.
+n1 int = none
+n2 str = none
+b1 bool = false
+s1 str = bare-word_1
+''', [("i1", "int", -42, None), ("i2", "int", 9007199254740993, None), ("f1", "float", 100.0, None), ("f2", "float", 0.5, "K"), ("f3", "float", -0.0025, None), ("f4", "float", 10.0, None),
+      ("n1", "int", None, None), ("n2", "str", None, None), ("b1", "bool", False, None), ("s1", "str", "bare-word_1", None)]),
+    ("table", '''
+out table = """
+snapshot int
+time float s
+label str
+
+0 1.5 a
+1 2.5 b
+"""
+after int = 1
+''', [("out.snapshot", "int", [0, 1], None), ("out.time", "float", [1.5, 2.5], "s"), ("out.label", "str", ["a", "b"], None), ("after", "int", 1, None)]),
+]
+
+
+@spec
+def literal_view(env):
+    return [(n.name, n.keyword, None if n.value.value is None else ([([y for y in x] if typename(x) in ('list', 'ndarray') else x) for x in n.value.value] if n.dimension else n.value.value),
+             n.value.unit if n.keyword in ('int', 'float') else None) for n in env.nodes]
+
+
+@contract(DIPC + ".parse", ["C13"], name="DIP.parse[literal-texts]")
+def _(c):
+    c.bound = f"{len(C13_TEXTS)} concrete texts (comments, blank lines, mixed indentation widths, dotted names, blocks, a table, numbers in every notation, none)"
+    for name, text, want in C13_TEXTS:
+        def pre(b, text=text, want=want):
+            d = b.new(DIPC, name="t")
+            b.call(b.getattr(d, "add_string"), text)
+            return dict(args=[d], env=dict(want=want))
+        c.scenario(name, pre)
+    c.ensures("literal_view(result) == want", "one-parameter-per-node-with-path-type-value-and-unit-as-written")
     c.no_raise()
